@@ -102,6 +102,7 @@ func TestC15(t *testing.T) {
 		}
 		lookupRace(t, r)
 		failedCreationsBesideAnUpdater(t, r)
+		closersOfOddTypes(r)
 		interfaceTyped(r)
 		for i := 0; i < r.N(12, 120); i++ {
 			lifetimes(r, i)
@@ -110,7 +111,7 @@ func TestC15(t *testing.T) {
 			updaterDuringPollOfStaleSecret(t, r, i)
 		}
 	}
-	r.Require("updaters_beside_failed_creations", "gets_after_install", "gets_without_install", "gets_after_many_installs", "builder_failures", "closes_checked", "updater_created_during_install",
+	r.Require("gets_of_closers_of_odd_types", "updaters_beside_failed_creations", "gets_after_install", "gets_without_install", "gets_after_many_installs", "builder_failures", "closes_checked", "updater_created_during_install",
 		"installs_with_failing_cache", "concurrent_gets", "updaters_from_racing_lookups", "interface_typed_updater_gets", "gets_while_failed_build_outstanding", "updater_lifetime_cases", "installs_going_back", "installs_of_equal_bytes", "updaters_created_during_a_poll_of_a_stale_secret")
 	r.Rule("sequential seeded histories over 2 secrets and up to 5 updaters: installs (0..4 between Gets, sometimes with a failing cache write), updater creation (also while an install lands during its initial build), scripted builder failures, Gets; exact expectations per Get on (builder invoked?, with which bytes, value returned, Err, Close counts). Concurrent runs: 8 Get goroutines vs an installer, judged by call/return stamps. Distinct = (event, installs since last Get capped at 3, builder outcome)")
 }
@@ -872,4 +873,101 @@ func failedCreationsBesideAnUpdater(t *testing.T, r *evid.Run) {
 		}
 		st.Close()
 	}
+}
+
+// connPool is a value type that is an io.Closer and is NOT comparable (a slice): a pool of connections.
+type connPool []*poolConn
+
+type poolConn struct {
+	cred   string
+	closed int
+}
+
+func (p connPool) Close() error {
+	for _, c := range p {
+		c.closed++
+	}
+	return nil
+}
+
+// bundle is a struct value with a slice inside (not comparable either) and a Close method.
+type bundle struct {
+	parts  []string
+	closed *int
+}
+
+func (b bundle) Close() error { *b.closed++; return nil }
+
+// closersOfOddTypes: the value type of an Updater may be any type; when it is an io.Closer the replaced value
+// is closed exactly once - also when the type is a slice, a struct holding one, or an interface holding one.
+func closersOfOddTypes(r *evid.Run) {
+	svc := fakesvc.New()
+	svc.Set("c/s", 1, []byte("cred-1"))
+	st, err := setec.NewStore(context.Background(), setec.StoreConfig{Client: svc, Secrets: []string{"c/s"}, PollInterval: -1, Logf: func(string, ...any) {}})
+	if err != nil {
+		panic(err)
+	}
+	defer st.Close()
+	var pools []connPool
+	up, err1 := setec.NewUpdater(context.Background(), st, "c/s", func(b []byte) (connPool, error) {
+		p := connPool{{cred: string(b)}, {cred: string(b)}}
+		pools = append(pools, p)
+		return p, nil
+	})
+	var bundles []bundle
+	ub, err2 := setec.NewUpdater(context.Background(), st, "c/s", func(b []byte) (bundle, error) {
+		x := bundle{parts: []string{string(b)}, closed: new(int)}
+		bundles = append(bundles, x)
+		return x, nil
+	})
+	var ifaces []connPool
+	ui, err3 := setec.NewUpdater(context.Background(), st, "c/s", func(b []byte) (io.Closer, error) {
+		p := connPool{{cred: string(b)}}
+		ifaces = append(ifaces, p)
+		return p, nil
+	})
+	if err1 != nil || err2 != nil || err3 != nil {
+		r.Violation("updater-fails", -1, fmt.Sprint(err1, err2, err3), nil)
+		return
+	}
+	for v := uint32(2); v <= 4; v++ {
+		want := fmt.Sprintf("cred-%d", v)
+		svc.Set("c/s", v, []byte(want))
+		st.Refresh(context.Background())
+		r.Eval(1)
+		r.Count("gets_of_closers_of_odd_types", 3)
+		if p := func() (p any) {
+			defer func() { p = recover() }()
+			gp, gb, gi := up.Get(), ub.Get(), ui.Get()
+			if len(gp) != 2 || gp[0].cred != want || len(gb.parts) != 1 || gb.parts[0] != want || gi.(connPool)[0].cred != want {
+				r.Violation("update-lost", -1, fmt.Sprintf("after version %d was installed the updaters (slice type, struct-with-slice type, interface type) return %v / %v / %v", v, gp[0].cred, gb.parts, gi.(connPool)[0].cred), nil)
+			}
+			return nil
+		}(); p != nil {
+			r.Violation("get-panics", -1, fmt.Sprintf("Get of an updater whose value type is an io.Closer that is not comparable (a slice, a struct holding one, an interface holding one) panics after an install: %v", p), nil)
+			return
+		}
+		// the replaced values are closed exactly once, the current ones not at all
+		for i, p := range pools {
+			wantClosed := 1
+			if i == len(pools)-1 {
+				wantClosed = 0
+			}
+			if p[0].closed != wantClosed {
+				r.Violation("close-count-wrong", -1, fmt.Sprintf("slice-typed value #%d has been closed %d times, want %d", i, p[0].closed, wantClosed), nil)
+				return
+			}
+		}
+		for i, b := range bundles {
+			wantClosed := 1
+			if i == len(bundles)-1 {
+				wantClosed = 0
+			}
+			if *b.closed != wantClosed {
+				r.Violation("close-count-wrong", -1, fmt.Sprintf("struct-typed value #%d has been closed %d times, want %d", i, *b.closed, wantClosed), nil)
+				return
+			}
+		}
+	}
+	r.Distinct("closers of odd types")
 }
